@@ -2,6 +2,9 @@
 # Independent re-check of every property and instance file (and everything they depend on) with coqchk; prints the
 # context summary (axioms, type-in-type, unsafe fixpoints, assumed positivity).  Takes 10-40 minutes.
 cd /verif/coq || exit 2
+# bring every .vo up to date first: the checks recompile regenerated Gen/*.v files, and files compiled against an older
+# Gen/*.vo would be reported as "inconsistent assumptions"
+(cd /verif && ./check setup > /dev/null 2>&1) || exit 2
 mods=""
 for f in theories/Props/C*.v theories/Inst/C*.v; do
   m=$(echo "$f" | sed 's#theories/#Bandit.#; s#/#.#g; s#\.v$##')
